@@ -39,9 +39,14 @@ def run(ctx: Context) -> None:
 
     # ---- R14.1
     with ctx.section('R14.1'):
-        pol = m.stmt(f"$polygons = {ds}.ems.polygons")
-        ctx.check('R14.1', pol is not None, "the cells are dataset.ems.polygons (index = linear index)", td, pol or td.node,
-                  construct='polygons = dataset.ems.polygons')
+        pol = m.stmt(f"$polygons = shapely.remove_repeated_points({ds}.ems.polygons)")
+        dedup = pol is not None
+        pol = pol or m.stmt(f"$polygons = {ds}.ems.polygons")
+        ctx.check('R14.1', pol is not None, "the cells are dataset.ems.polygons, element for element (index = linear index)", td, pol or td.node,
+                  construct='polygons = [remove_repeated_points](dataset.ems.polygons)')
+        ctx.check('R14.1', dedup, "consecutive repeated vertices are removed first (element-wise, None stays None): a zero length edge has no ear to cut "
+                  "and counts as a side in n-2 (meshes that pad a triangle by repeating its last node, cells collapsed at a pole)", td, pol or td.node,
+                  construct=f"cells: {norm_text(pol.value) if pol is not None else '?'}")
         pl = m.stmt('$length = shapely.get_num_coordinates($polygons)')
         ctx.check('R14.1', pl is not None, "the per-cell length is the coordinate count of every cell (0 for cells without geometry)", td, pl or td.node,
                   construct='length = shapely.get_num_coordinates(polygons)')
@@ -253,6 +258,7 @@ from ..variants import V  # noqa: E402
 
 _T = 'src/emsarray/operations/triangulate.py'
 VARIANTS = [
+    V('C14', 'repeated-vertices-kept', 'src/emsarray/operations/triangulate.py', "    polygons = shapely.remove_repeated_points(dataset.ems.polygons)", "    polygons = dataset.ems.polygons", 'R14.1'),
     V('C14', 'zero-other-index-set', _T, "    polygon_length[polygon_is_concave] = 0", "    polygon_length[polygon_is_concave[:-1]] = 0", 'R14.1'),
     V('C14', 'ear-loop-other-set', _T, "    for face_index in polygon_is_concave:", "    for face_index in numpy.flatnonzero(convex_hull_length < polygon_length):", 'R14.1'),
     V('C14', 'v2-window-short', _T, "    v2 = coordinates[:, 2:]", "    v2 = coordinates[:, 1:-1]", 'R14.2'),
